@@ -23,11 +23,17 @@ Transcribed (snapshot ef0888e + the `fix:` commits listed in findings/C06.txt):
   `alertNodeShared` / `getCreateFnOld` are the code as it was at the snapshot (level expressions shared by all
   groups; `currentKind` updated before a failing `determineReduceContextCreateFn` while the stale `createFn` stayed), kept for the
   counterexample theorems.
+* `windowByTime` as a grouped receiver `windowTimeNodeB`: a wrapper around the IMPORTED C03 model (`Kap.C03.TW`), the
+  alert node with history ring / `changed` / flapping flag (`alertHistNode`, `addEvent`, `percentChange` comparisons,
+  the float64 weighting as `goFlapDecide`), the batch side of alert (`alertThrNodeB`, `alertCountNodeB`:
+  `alertState.BufferedBatch`) and eval (`evalCountAddNodeB`), `groupByStream` (`GroupByNode.Point`), and `runPipe`
+  (two nodes in a row; the window's batch travels under its batch-edge id, `onBatchEdge`).
 `whereNestedNode` / `evalNestedNode`: where / eval whose lambda uses a lambda VAR (nested `EvalLambdaNode`, one
   ExecutionState per node — the recorded finding nested-lambda-state-shared); `alert().crit(lambda: nl)` with a nested
   lambda is exactly `alertNodeShared`.
 Abstracted: everything about a message except group id / time / the field `v` / name / tags; errors are
-"log and drop"; batches inside the concrete receivers (the generic demultiplexer does model them).
+"log and drop"; unbuffered batches inside the concrete receivers (the generic demultiplexer does model them; the
+batch-side receivers take whole buffered batches).
 Core Lean only.
 -/
 import Kap.Basic
@@ -832,6 +838,22 @@ def alertCountNodeB (pr : CountPred) : Node Unit (Nat × Nat) Batch Out :=
         let d := alertDetermine pr acc.1 s.2
         (d.1, max acc.2 d.2)) (s.1, 0)
       ((), ((r.1, r.2), alertBatchEmit s.2 r.2 b)))
+
+/-! ### eval node, batch side (`evalGroup.BatchPoint` with `lambda: count() + "v"` `.as('o')`)
+
+the group's `count()` (its CopyReset copy) runs on across the points of a batch and across batches; a point whose
+field is missing fails in `fillScope` BEFORE the expression runs (dropped, `count()` untouched); a float field makes
+`int + float` a type error found while the operator is being specialised, before `count()` has advanced (dropped,
+`count()` untouched — the generator mixes int and float points inside a group so that the run sees this); other
+field types are not generated. -/
+def evalCountAddNodeB : Node Unit Nat Batch Out :=
+  batchNode 0 (fun _ cnt b =>
+    let r := b.pts.foldl (fun (acc : Nat × List (Int × Option String)) p =>
+      match p.v with
+      | .int i => (acc.1 + 1, acc.2 ++ [(p.time, some s!"i:{(acc.1 + 1 : Int) + i}")])
+      | .flt _ => acc
+      | _ => acc) (cnt, [])
+    ((), (r.1, [batchOut b r.2])))
 
 /-! ### groupBy, stream side (`GroupByNode.Point`): a stateless relabelling
 
